@@ -30,7 +30,7 @@ import (
 // the Go race detector evaluated on the simulated interleaving (race build).
 
 var concFaults = []string{"preempt", "lock-contended", "curve-first-use", "close-during-write", "rotation-during-handshake", "pct-schedule", "dense-preemption", "transport-write-blocks", "peer-transport-abort"}
-var concReach = []string{"block-shared", "pkg-sign", "pkg-encrypt", "pkg-hash", "pkg-sm4", "pkg-parse", "pkg-pkcs7-ber", "pkg-verify-chain", "cache-linearizable", "cache-eviction", "pool-verify", "conn-linearizable", "conn-close-raced", "write-after-close-failed", "config-handshakes", "config-rotated", "config-resumed", "config-followup-resumption-owed", "config-rotation-inside-ticket-code", "conn-multi-record-writes", "conn-write-inside-last-flight", "tasks>=8", "tasks>=16", "porcupine-unknown"}
+var concReach = []string{"block-shared", "pkg-sign", "pkg-encrypt", "pkg-hash", "pkg-sm4", "pkg-parse", "pkg-pkcs7-ber", "pkg-verify-chain", "cache-linearizable", "cache-eviction", "pool-verify", "conn-linearizable", "conn-close-raced", "write-after-close-failed", "config-handshakes", "config-rotated", "config-resumed", "config-followup-resumption-owed", "config-rotation-inside-ticket-code", "conn-multi-record-writes", "conn-write-inside-last-flight", "conn-quiet-peer", "conn-concurrent-ekm", "tasks>=8", "tasks>=16", "porcupine-unknown"}
 
 func init() {
 	for i, p := range []struct {
@@ -745,9 +745,17 @@ func runConcConn(c *simkit.Choice, r *simkit.Rec) {
 	// transport writes that block on a small window: a Read that must answer with
 	// an alert and a Write whose transport write fails meet. Everything must wind
 	// down with errors; nothing may hang.
+	// quiet peer: the server has nothing to say and hangs up only after it has seen
+	// the client's end of stream - a Close on the client must get through although a
+	// Read of the same connection is parked in the transport
+	quietPeer := closer && !big && c.Bool(1, 3, simkit.LScen)
+	if quietPeer {
+		nw[1] = 0
+	}
 	abortMode := !big && c.Bool(1, 6, simkit.LScen)
 	abortAfter := c.Range(0, 400, simkit.LScen)
 	if abortMode {
+		rdBuf = 4096
 		closer, halfCloser, corrupt, implicitHS = false, false, true, false
 		if nw[0] < 1 {
 			nw[0] = 1
@@ -814,7 +822,12 @@ func runConcConn(c *simkit.Choice, r *simkit.Rec) {
 		r.Fault(idx(concFaults, "transport-write-blocks"))
 	}
 	flipped := &simkit.Flag{Name: "damaged-record-left"}
-	var aborted atomic.Bool
+	var aborted, quietReached, ekmRan atomic.Bool
+	var ekmBad atomic.Int64
+	ekmCallers := 0
+	if !implicitHS && c.Bool(1, 3, simkit.LScen) {
+		ekmCallers = 2 + c.Choose(2, simkit.LScen)
+	}
 	a, b := s.NewConnPair("cli", "srv", netC, netS)
 	if lateWriter {
 		hasCCS := func(buf []byte) bool {
@@ -931,6 +944,29 @@ func runConcConn(c *simkit.Choice, r *simkit.Rec) {
 					}
 				})
 			}
+			if ekmCallers > 0 && side == 0 {
+				// exporters: the same label with different short contexts from several tasks
+				// at once; every result must equal what the same call returned when it ran alone
+				var want [4][]byte
+				ctxs := [4][]byte{[]byte("ctx-a"), []byte("context-b-longer"), {}, []byte("c")}
+				for i := 0; i < ekmCallers; i++ {
+					st := conn.ConnectionState()
+					want[i], _ = st.ExportKeyingMaterial("EXPORTER-conc", ctxs[i], 40)
+				}
+				for i := 0; i < ekmCallers; i++ {
+					i := i
+					s.Spawn(fmt.Sprintf("cli-ekm%d", i), 0, func() {
+						for k := 0; k < 4; k++ {
+							st := conn.ConnectionState()
+							got, err := st.ExportKeyingMaterial("EXPORTER-conc", ctxs[i], 40)
+							if err == nil && !bytes.Equal(got, want[i]) {
+								ekmBad.Add(1)
+							}
+							ekmRan.Store(true)
+						}
+					})
+				}
+			}
 			if statePoller && side == 0 {
 				// ConnectionState concurrently with the (possibly implicit) handshake and the traffic
 				s.Spawn("cli-state", 0, func() {
@@ -997,8 +1033,12 @@ func runConcConn(c *simkit.Choice, r *simkit.Rec) {
 					}
 				})
 			}
+			rdone := make([]*simkit.Flag, 0, 4)
 			for rd := 0; rd < nr[side]; rd++ {
+				rf := &simkit.Flag{Name: "rdone"}
+				rdone = append(rdone, rf)
 				s.Spawn(fmt.Sprintf("%s-r%d", []string{"cli", "srv"}[side], rd), side, func() {
+					defer rf.Set()
 					buf := make([]byte, rdBuf)
 					for k := 0; k < 40; k++ {
 						h := slot(1 - side) // reads consume the peer's direction
@@ -1073,6 +1113,12 @@ func runConcConn(c *simkit.Choice, r *simkit.Rec) {
 			// orderly shutdown: after own writers are done, close the write side
 			for _, f := range wdone {
 				s.WaitFlag(f)
+			}
+			if quietPeer && side == 1 {
+				for _, f := range rdone {
+					s.WaitFlag(f)
+				}
+				quietReached.Store(true)
 			}
 			if implicitHS {
 				// CloseWrite needs a completed handshake; this is one more concurrent caller of Handshake
@@ -1184,6 +1230,16 @@ func runConcConn(c *simkit.Choice, r *simkit.Rec) {
 	if aborted.Load() {
 		r.Fault(idx(concFaults, "peer-transport-abort"))
 	}
+	if quietReached.Load() {
+		r.Reach(idx(concReach, "conn-quiet-peer"))
+	}
+	if ekmRan.Load() {
+		r.Reach(idx(concReach, "conn-concurrent-ekm"))
+	}
+	if n := ekmBad.Load(); n > 0 {
+		r.Violate("result-differs", site+".ExportKeyingMaterial", fmt.Sprintf("%d concurrent ExportKeyingMaterial calls returned something else than the same call had returned when it ran alone", n))
+		return
+	}
 	model := pipeModel()
 	for d := 0; d < 2; d++ {
 		var ops []porcupine.Operation
@@ -1191,6 +1247,9 @@ func runConcConn(c *simkit.Choice, r *simkit.Rec) {
 			h := hist[d][i]
 			if h.ret == 0 {
 				continue // never returned (torn down): not part of the history
+			}
+			if nhist[d] >= maxOps && h.in.kind == 1 && h.out.eof {
+				continue // the history is full: the close that explains this end of stream found no slot
 			}
 			ops = append(ops, porcupine.Operation{ClientId: i, Input: h.in, Call: h.call, Output: h.out, Return: h.ret})
 		}
